@@ -156,6 +156,15 @@ class QiskitConverter:
             if gate not in ALLOWED_GATES:
                 msg = f"Unsupported gate '{gate}' included in circuit."
                 raise ValueError(msg)
+            # A user defined gate can carry the name of a supported gate
+            if not inst.operation.base_class.__module__.startswith(
+                "qiskit.circuit.library.standard_gates"
+            ):
+                msg = (
+                    f"Gate '{gate}' is not the qiskit standard gate of that "
+                    "name."
+                )
+                raise ValueError(msg)
             # Single Qubit Gates
             if len(qubits) == 1:
                 if gate in SINGLE_QUBIT_GATES_MAP:
